@@ -405,6 +405,84 @@ def enter_context(it, v):
 
 
 # ---------------------------------------------------------------------- subscripts
+def _col(d, c):
+    """a column loaded from a table: the Series carries the table's index; when that index is not known to be 0..n-1 the
+    Series remembers it (aligned = the index tag), so label-aligned arithmetic with a fresh-index Series is a visible hazard"""
+    v = d.cols[c]
+    if isinstance(v, Vec) and v.aligned and d.index != "range":
+        v.aligned = d.index
+    return v
+
+
+class GroupList(list):
+    """groupby of an exact table: the (key, sub-table) pairs in group order; `[col]` gives the grouped column, whose
+    cumulative / transform methods return a Series in the table's own row order"""
+
+    def __init__(self, df, by, pairs):
+        super().__init__(pairs)
+        self.df, self.by = df, by
+
+    def abs_getitem(self, it, k):
+        if isinstance(k, str) and k in self.df.cols:
+            g = GroupedCol(self, k)
+            g._it = it
+            return g
+        raise Undecided(f"groupby[{k!r}]")
+
+
+class GroupedCol:
+    def __init__(self, groups, col):
+        self.groups, self.col = groups, col
+
+    def _per_group(self, it, name, args, kw):
+        df = self.groups.df
+        keys = df.cols[self.groups.by].v
+        out = [None] * df.n
+        for key, _sub in self.groups:
+            pos = [i for i, x in enumerate(keys) if x == key]
+            part = Vec([df.cols[self.col].v[i] for i in pos], aligned=True)
+            part.exact = True
+            res = vec_method(it, part, name, list(args), dict(kw))
+            if not isinstance(res, Vec) or len(res.v) != len(pos):
+                raise Undecided(f"groupby column method {name}")
+            for i, x in zip(pos, res.v):
+                out[i] = x
+        r = Vec(out, aligned=True)
+        r.exact = True
+        return r
+
+    def cummax(self, *a, **k):
+        return self._per_group(self._it, "cummax", a, k)
+
+    def cummin(self, *a, **k):
+        return self._per_group(self._it, "cummin", a, k)
+
+    def cumsum(self, *a, **k):
+        return self._per_group(self._it, "cumsum", a, k)
+
+
+class LabelSeries:
+    """pd.Series(<dict>): values looked up by label"""
+
+    def __init__(self, d):
+        self.d = dict(d)
+
+    def abs_getitem(self, it, k):
+        if isinstance(k, Vec):
+            out = []
+            for x in k.v:
+                if x not in self.d:
+                    raise Raised("KeyError", repr(x))
+                out.append(self.d[x])
+            return Vec(out)                 # indexed by the looked-up labels: neither the table's index nor 0..n-1
+        if k in self.d:
+            return self.d[k]
+        raise Raised("KeyError", repr(k))
+
+    def abs_len(self):
+        return len(self.d)
+
+
 def _maskload(vec, mask):
     return Vec(x if m is True else None for m, x in zip(mask.v, vec.v))
 
@@ -416,7 +494,7 @@ def load_subscript(it, obj, k):
         if isinstance(k, str):
             if k not in obj.data.cols:
                 raise Raised("KeyError", k)
-            return obj.data.cols[k]
+            return _col(obj.data, k)
         if isinstance(k, tuple) and len(k) == 2 and isinstance(k[1], str) and isinstance(k[0], Vec):
             return _maskload(obj.data.cols[k[1]], k[0])
         if isinstance(k, Vec):
@@ -437,7 +515,7 @@ def load_subscript(it, obj, k):
             rows, col = k
             if isinstance(rows, slice) and rows == slice(None, None, None):
                 if isinstance(col, str):
-                    return d.cols[col]
+                    return _col(d, col)
                 return DF({c: d.cols[c] for c in col}, d.n, d.index)
             if isinstance(rows, Vec) and isinstance(col, str):
                 return _maskload(d.cols[col], rows)
@@ -467,7 +545,7 @@ def load_subscript(it, obj, k):
         if isinstance(k, str):
             if k not in obj.cols:
                 raise Raised("KeyError", k)
-            return obj.cols[k]
+            return _col(obj, k)
         if isinstance(k, (list, tuple)):
             return DF({c: obj.cols[c] for c in k}, obj.n, obj.index)
         raise Undecided(f"DataFrame getitem {k!r}")
@@ -483,10 +561,16 @@ def load_subscript(it, obj, k):
                 raise Raised("IndexError")
         if isinstance(k, Term) and k.is_const():
             return obj.v[int(k.cval())]
+        if isinstance(k, Vec) and obj.exact and len(k.v) == len(obj.v) and all(isinstance(m, bool) for m in k.v):
+            r = Vec([x for x, m in zip(obj.v, k.v) if m])          # literal elements: filtered for real
+            r.exact = True
+            return r
         if isinstance(k, Vec):
             return _maskload(obj, k)
         if isinstance(k, slice):
-            return Vec(obj.v[_int_slice(k, len(obj.v))])
+            r = Vec(obj.v[_int_slice(k, len(obj.v))])
+            r.exact = obj.exact
+            return r
         if isinstance(k, (list, tuple)) and all(isinstance(i, int) and not isinstance(i, bool) for i in k):
             return Vec([obj.v[i] for i in k])
         raise Undecided(f"vector index {k!r}")
@@ -654,7 +738,7 @@ def value_attr(it, obj, attr):
             names = [c for c in obj.cols if not c.startswith("__")]
             return Matrix(names, [obj.cols[c].v for c in names])
         if attr in obj.cols:
-            return obj.cols[attr]
+            return _col(obj, attr)
         return BoundMethod(obj, attr)
     if isinstance(obj, Row):
         if attr in ("_replace", "_asdict"):
@@ -837,6 +921,8 @@ def astype(x, ty):
 
 def vec_method(it, obj, name, args, kw):
     ai = _ai()
+    if name == "reset_index" and kw.get("drop") is True:
+        return Vec(obj.v, fresh=True)          # a new 0..n-1 index
     if name in ("copy", "to_numpy", "tolist", "reset_index", "ravel", "flatten", "squeeze", "to_list"):
         return Vec(obj.v) if name != "tolist" else list(obj.v)
     if name == "astype":
@@ -906,6 +992,8 @@ def vec_method(it, obj, name, args, kw):
             if hi_ is not None:
                 r = f_min(r, hi_)
             return r
+        for bound in (lo, hi):
+            ai.label_hazard(obj, bound, "clip")
         los, his = bcast(lo, len(obj.v)), bcast(hi, len(obj.v))
         return Vec((ai.CTX.per_class(i, clip, x, l, h) for i, (x, l, h) in enumerate(zip(obj.v, los, his))), fresh=obj.fresh, aligned=obj.aligned)
     if name == "replace":
@@ -949,6 +1037,15 @@ def vec_method(it, obj, name, args, kw):
         return Vec(ai.CTX.per_class(i, lambda x=x: it.call(f, [x], {})) for i, x in enumerate(obj.v))
     if name == "items":
         return list(enumerate(obj.v))
+    if name in ("cumsum", "cummax", "cummin") and obj.exact and all(num(x) and not isinstance(x, bool) for x in obj.v):
+        # a literal column of plain numbers: the running aggregate is computed
+        out, acc = [], None
+        for x in obj.v:
+            acc = x if acc is None else {"cumsum": acc + x, "cummax": max(acc, x), "cummin": min(acc, x)}[name]
+            out.append(acc)
+        r = Vec(out, fresh=obj.fresh, aligned=obj.aligned)
+        r.exact = True
+        return r
     if name in ("cumsum", "cummax", "cummin", "diff", "shift", "rolling", "sort_values", "argsort", "rank", "searchsorted",
                 "groupby", "ewm", "expanding", "cumprod", "sample", "nlargest", "nsmallest", "corr"):
         return Opaque(f"mixed:{name}")
@@ -1068,7 +1165,7 @@ def df_method(it, obj, name, args, kw):
                     keys.append(x)
             if kw.get("sort", True):
                 keys = sorted(keys)
-            return [(k, df_select(obj, Vec([x == k for x in obj.cols[by].v]))) for k in keys]
+            return GroupList(obj, by, [(k, df_select(obj, Vec([x == k for x in obj.cols[by].v]))) for k in keys])
     if name == "groupby" and obj.n == 1:
         by = kw.get("by", args[0] if args else None)
         if isinstance(by, str) and by in obj.cols:
@@ -1191,6 +1288,8 @@ def ext_call(it, dotted, args, kw):
     if name in ("np.asarray", "np.array", "np.asfarray", "pd.Series", "np.atleast_1d"):
         a0 = args[0] if args else kw.get("data")
         fresh = name == "pd.Series" and "index" not in kw
+        if name == "pd.Series" and isinstance(a0, dict) and "index" not in kw:
+            return LabelSeries(a0)
         if isinstance(a0, Vec):
             return Vec(a0.v, fresh=fresh and not a0.aligned, aligned=a0.aligned and name == "pd.Series")
         if isinstance(a0, (list, tuple)):
